@@ -166,6 +166,26 @@ fn check_one<CS: BbsCiphersuite>(rep: &Report, ck: &str, c: &Case) -> CheckResul
         // a commitment made under the other suite
         let other = with_suite!(c.suite.other(), CS2 => Commitment::<BBSplus<CS2>>::commit(Some(&cm)).unwrap().0.to_bytes());
         cx.expect_reject("blind_sign", "cross-suite-commitment", || signs(&other), || "".into())?;
+        // the octets just accepted by this suite's signer, replayed to the other suite's signer
+        // (same process, same thread, right after the honest acceptance)
+        let replay = || {
+            with_suite!(c.suite.other(), CS2 => {
+                let kp2 = keypair::<CS2>(&c.key).unwrap();
+                let _ = signs(&cb);
+                BlindSignature::<BBSplus<CS2>>::blind_sign(kp2.private_key(), kp2.public_key(), Some(&cb), hdr, Some(&msgs)).is_ok()
+            })
+        };
+        cx.expect_reject("blind_sign", "accepted-octets-replayed-to-other-suite", replay, || "".into())?;
+        // a refused commitment must stay refused when presented again (also after an honest acceptance)
+        let mut bad = cb.clone();
+        let last = bad.len() - 1;
+        bad[last] ^= 1;
+        let again = || {
+            let first = signs(&bad);
+            let _ = signs(&cb);
+            first || signs(&bad)
+        };
+        cx.expect_reject("blind_sign", "refused-commitment-presented-again", again, || "".into())?;
     }
     // whole-scalar truncations / extensions at every position (the empty string means "no commitment")
     let chunks = (cb.len() - 48) / 32;
